@@ -112,6 +112,17 @@ CHECKS = {
             "Trusted: 'an item fails iff its type applied alone rejects its value' (measured on the real code, cross-checked "
             "against the fail-fast verdict on every case) plus the documented absence / excess-key rules.",
             "DESIGN.md §3 C10"),
+    "C11": ("bounded-exhaustive metamorphic exploration of (container type, policy combination, input container) with the "
+            "element types as black boxes",
+            "List / Set / FrozenSet / Tuple[..., ...] / Deque over 3 element types, Dict over 2 key x 2 value types, "
+            "List[List[L]], Dict[str, List[L]], data-class fields (per-field on_error x class invalid_values x required / "
+            "optional / default), extra keys with an addition type, *args -- every input container of length <= 3 / 4 over "
+            "{valid, convertible, invalid, other invalid} in list / tuple / set spelling under the applicable policy "
+            "combinations (all 27 for mappings in the thorough tier): throw = error iff an element offends; exclude = the "
+            "other elements converted exactly as alone (and equal to strict parsing of the filtered input); preserve = the "
+            "same with offending elements unchanged in place; a required field is never silently excluded; other fields untouched.",
+            "Trusted: an element offends iff its type applied alone rejects it under the same options (measured on the real code).",
+            "DESIGN.md §3 C11"),
     "C16": ("explicit-state exploration (DFS with state dedup) of register/resolve histories on the real "
             "TypeRegistry against a cache-free reference model",
             "All histories of register/resolve operations up to depth 4 (quick) / 5 (thorough) over a menu of "
